@@ -183,6 +183,9 @@ func (n *NetWorld) OnProbe(w *Wire, sink int, raw []byte, p *Probe, perr error, 
 		if data != nil {
 			tag.Flow = fs.key
 			tag.CausedBy = ttl
+			if h.LinkPad && len(data) < 46 {
+				data = append(append([]byte(nil), data...), make([]byte, 46-len(data))...)
+			}
 			out = append(out, Sched{Delay: us(h.DelayUs), Data: data, Tag: tag})
 			for _, d := range h.DupsUs {
 				out = append(out, Sched{Delay: us(d), Data: data, Tag: tag})
@@ -430,15 +433,15 @@ func (fs *flowSt) sackReceive(p *Probe) ([]byte, uint32) {
 // ---- SACK server: a real loopback listener whose handshake the wire fabricates ----
 
 type SackCfg struct {
-	Permit    bool   `json:"permit"`
-	TS        bool   `json:"ts"`
-	ClientNxt uint32 `json:"client_nxt"` // value of the SYN-ACK's ack field (= localInitSeq of the driver)
-	ServerISN uint32 `json:"server_isn"`
-	NoSynAck  bool   `json:"no_synack,omitempty"` // handshake never shown to the capture handle
-	TruncTS   bool   `json:"trunc_ts,omitempty"`  // timestamps option with a short length
-	SynAckUs  int64  `json:"synack_us,omitempty"`
-	NoListen  bool   `json:"no_listen,omitempty"` // port closed
-	DropSyn   bool   `json:"drop_syn,omitempty"`  // the target silently drops the SYN (full accept queue): connect times out; real time only
+	Permit       bool          `json:"permit"`
+	TS           bool          `json:"ts"`
+	ClientNxt    uint32        `json:"client_nxt"` // value of the SYN-ACK's ack field (= localInitSeq of the driver)
+	ServerISN    uint32        `json:"server_isn"`
+	NoSynAck     bool          `json:"no_synack,omitempty"` // handshake never shown to the capture handle
+	TruncTS      bool          `json:"trunc_ts,omitempty"`  // timestamps option with a short length
+	SynAckUs     int64         `json:"synack_us,omitempty"`
+	NoListen     bool          `json:"no_listen,omitempty"` // port closed
+	DropSyn      bool          `json:"drop_syn,omitempty"`  // the target silently drops the SYN (full accept queue): connect times out; real time only
 	ExtraSynAcks []SynAckNoise `json:"extra,omitempty"`
 }
 
